@@ -615,7 +615,7 @@ class RxnWorld(BaseWorld):
         if ((want < 0) & (want > -1e-12)).any():
             self.stats['probe:negligible_negative_cleanup_expected'] += 1
         infeasible = bool((want < -1e-7 * scale).any())
-        feasible = bool(want[want < 0].sum() > -1e-13)
+        feasible = self._clearly_feasible(want)
         # a species consumed down to (almost) exactly zero: rounding in the library's own arithmetic (done in
         # the reaction's basis, kg for 'wt') decides on which side of its -1e-12 threshold it lands
         if bool(((want < 1e-9 * scale) & (want < np.asarray(m0) - 1e-12)).any()):
@@ -678,6 +678,15 @@ class RxnWorld(BaseWorld):
                 self.fail('mass-view-after-reaction', f'{name}: mass view disagrees with mol x MW after the reaction', detail)
         return ['ok', [float(x).hex() for x in np.ravel(got)[:6]]]
 
+    def _clearly_feasible(self, want):
+        """The library rejects when the negative part of the result sums below -1e-12 IN THE REACTION'S BASIS
+        (kmol or kg).  The harness' arithmetic is molar (or in the array's own unit), so the negative part is
+        also weighed by the molecular weights (up to 180) and their inverse: only when all three sums are an
+        order of magnitude inside the threshold is a rejection called unjustified."""
+        MW = pkg('R').MW
+        neg = np.where(want < 0, want, 0.0)
+        return bool(min(neg.sum(), (neg * MW).sum(), (neg / MW).sum()) > -1e-13)
+
     def _scale_X(self, obj, spec, k):
         if isinstance(obj, tmo.ReactionSystem):
             for i in obj.reactions:
@@ -714,7 +723,7 @@ class RxnWorld(BaseWorld):
         if ((want < 0) & (want > -1e-12)).any():
             self.stats['probe:negligible_negative_cleanup_expected'] += 1
         infeasible = bool((want < -1e-7 * scale).any())
-        feasible = bool(want[want < 0].sum() > -1e-13)
+        feasible = self._clearly_feasible(want)
         if bool(((want < 1e-9 * scale) & (want < vals - 1e-12)).any()):
             feasible = False
         try:
